@@ -16,8 +16,19 @@ package main
 // Replay file:
 //   oracle c18auth
 //   cfg users=<n> jail=<ms>
-//   user <k> <name> <password>
+//   user <k> <name> <password>                      (quoted when empty or not an atom)
 //   C<conn> <PayloadType> <wire command | LOGIN user pass | APPEND mailbox marker>
+//   ADMIN remove <k> | ADMIN add <k> <password>     (Server.RemoveUser / Server.LoadUser with the same user id and a fresh connector)
+//
+// Credentials: user names of one server may be prefixes of one another, differ in letter case only, or be built so
+// that two valid pairs collide when name and password are joined (with or without a separator); besides the plain wrong
+// kinds the generator derives adversarial pairs from valid ones (every other split of name||password, separator
+// variants, truncations, empty password, swapped, other user's password / name) and presents them before and after the
+// owner of the valid pair has logged in (same server, other connection), after its logout, after the user was removed
+// and after it was added again (with the same or a new password).  Which connector accepts a pair is the harness'
+// table (the rule of connector.Dummy.Authorize over the users currently on the server).  After every LOGIN that is
+// answered OK the harness itself issues the identity probe `LIST "" "*"` on that session: the judge requires the
+// listing to show the marker mailboxes of exactly the user whose connector accepts the presented pair.
 //
 // Generation is offline (no feedback from the server), deterministic from the seed; sequences are
 // executed by a pool of workers (each sequence has its own server; every timing check is a lower
@@ -48,6 +59,7 @@ type authUser struct {
 	Name, Pass string
 	ID         string
 	Conn       *connector.Dummy
+	Removed    bool
 }
 
 type authSys struct {
@@ -55,8 +67,51 @@ type authSys struct {
 	users  []*authUser
 	addr   string
 	dir    string
+	ctx    context.Context
 	cancel context.CancelFunc
 	panics *panicRecorder
+}
+
+func authAllFlags() imap.FlagSet {
+	return imap.NewFlagSet(imap.FlagSeen, imap.FlagFlagged, imap.FlagDeleted, imap.FlagAnswered, imap.FlagDraft)
+}
+
+// removeUser: Server.RemoveUser (files stay); blocks until the user's sessions have released their states.
+func (a *authSys) removeUser(k int) error {
+	u := a.users[k]
+	if u.Removed {
+		return fmt.Errorf("user %d is not on the server", k)
+	}
+	ctx, c := context.WithTimeout(a.ctx, 20*time.Second)
+	defer c()
+	done := make(chan error, 1)
+	go func() { done <- a.srv.RemoveUser(ctx, u.ID, false) }()
+	select {
+	case err := <-done:
+		if err != nil {
+			return err
+		}
+	case <-time.After(25 * time.Second):
+		return fmt.Errorf("RemoveUser did not return within 25s")
+	}
+	u.Removed = true
+	return nil
+}
+
+// addUser: the removed user comes back under its id with a fresh connector that accepts (name, pass).
+func (a *authSys) addUser(k int, pass string) error {
+	u := a.users[k]
+	if !u.Removed {
+		return fmt.Errorf("user %d is on the server", k)
+	}
+	all := authAllFlags()
+	conn := connector.NewDummy([]string{u.Name}, []byte(pass), time.Hour, all, all, imap.NewFlagSet())
+	conn.SetUpdatesAllowedToFail(true)
+	if _, err := a.srv.LoadUser(a.ctx, conn, u.ID, []byte("passphrase-"+u.Name)); err != nil {
+		return err
+	}
+	u.Conn, u.Pass, u.Removed = conn, pass, false
+	return nil
 }
 
 func authMarker(k int) string { return fmt.Sprintf("mk%dk", k) }
@@ -85,12 +140,12 @@ func newAuthSys(names, passes []string, jail time.Duration) (*authSys, error) {
 		return nil, err
 	}
 	ctx, cancel := context.WithCancel(context.Background())
-	a := &authSys{srv: srv, dir: dir, cancel: cancel, panics: rec}
+	a := &authSys{srv: srv, dir: dir, ctx: ctx, cancel: cancel, panics: rec}
 	fail := func(err error) (*authSys, error) {
 		a.Close()
 		return nil, err
 	}
-	all := imap.NewFlagSet(imap.FlagSeen, imap.FlagFlagged, imap.FlagDeleted, imap.FlagAnswered, imap.FlagDraft)
+	all := authAllFlags()
 	for k := range names {
 		// every user gets its own connector (own credentials) => own database and store in the backend
 		conn := connector.NewDummy([]string{names[k]}, []byte(passes[k]), time.Hour, all, all, imap.NewFlagSet())
@@ -199,7 +254,7 @@ func (a *authSys) snapshot(k int) (string, error) {
 	}
 	defer c.Close()
 	u := a.users[k]
-	if rep := c.Cmd(fmt.Sprintf("LOGIN %s %s", u.Name, u.Pass)); rep.Status != "OK" {
+	if rep := c.Cmd(authLoginArg(u.Name, u.Pass, false)); rep.Status != "OK" {
 		return "", fmt.Errorf("snapshot login of user %d failed: %q %v", k, rep.Tagged, rep.Err)
 	}
 	var out []string
@@ -285,6 +340,12 @@ type authStep struct {
 }
 
 func (s authStep) String() string {
+	switch s.Ty {
+	case "AdminRemove":
+		return "ADMIN remove " + s.Arg
+	case "AdminAdd":
+		return "ADMIN add " + s.Arg
+	}
 	if s.Arg == "" {
 		return fmt.Sprintf("C%d %s", s.Conn, s.Ty)
 	}
@@ -292,6 +353,12 @@ func (s authStep) String() string {
 }
 
 func parseAuthStep(l string) (authStep, error) {
+	if strings.HasPrefix(l, "ADMIN remove ") {
+		return authStep{Conn: -1, Ty: "AdminRemove", Arg: strings.TrimSpace(l[len("ADMIN remove "):])}, nil
+	}
+	if strings.HasPrefix(l, "ADMIN add ") {
+		return authStep{Conn: -1, Ty: "AdminAdd", Arg: strings.TrimSpace(l[len("ADMIN add "):])}, nil
+	}
 	f := strings.SplitN(l, " ", 3)
 	if len(f) < 2 || !strings.HasPrefix(f[0], "C") {
 		return authStep{}, fmt.Errorf("bad step %q", l)
@@ -317,7 +384,7 @@ func (q *authSeq) text() string {
 	var b strings.Builder
 	fmt.Fprintf(&b, "oracle c18auth\ncfg users=%d jail=%d\n", len(q.Names), q.JailMS)
 	for k := range q.Names {
-		fmt.Fprintf(&b, "user %d %s %s\n", k, q.Names[k], q.Passes[k])
+		fmt.Fprintf(&b, "user %d %s %s\n", k, authWord(q.Names[k], false), authWord(q.Passes[k], false))
 	}
 	for _, s := range q.Steps {
 		b.WriteString(s.String() + "\n")
@@ -332,7 +399,10 @@ func parseAuthSeq(text string) (*authSeq, error) {
 		if i == 0 || l == "" || strings.HasPrefix(l, "#") {
 			continue
 		}
-		f := strings.Fields(l)
+		f := authSplitArgs(l)
+		if len(f) == 0 {
+			continue
+		}
 		switch {
 		case f[0] == "cfg":
 			for _, kv := range f[1:] {
@@ -367,6 +437,9 @@ type authObs struct {
 	Full    bool   // the command was the full listing LIST "" "*"
 	Untag   bool   // the completion was an untagged NO/BAD (the line had no tag: DONE outside IDLE)
 	Acc     []int  // LOGIN: users whose connector accepts the credentials (from the harness' credential table)
+	Probed  bool   // LOGIN answered OK: the harness issued the identity probe LIST "" "*" on the session
+	Who     []int  // users whose markers the identity probe showed
+	Admin   bool   // not a command: ADMIN remove / add
 	Raw     string
 }
 
@@ -506,21 +579,78 @@ func execAuthStep(c *Client, st authStep) Reply {
 	}
 }
 
-func (q *authSeq) accepting(arg string) []int {
-	f := strings.Fields(arg)
-	var out []int
+// authSplitArgs: the words of a line; a word in double quotes may be empty or contain spaces (no escapes: the
+// generator never puts `"` or `\` into a name or password).
+func authSplitArgs(l string) []string {
+	var out []string
+	for i := 0; i < len(l); {
+		switch {
+		case l[i] == ' ':
+			i++
+		case l[i] == '"':
+			j := strings.IndexByte(l[i+1:], '"')
+			if j < 0 {
+				out = append(out, l[i+1:])
+				return out
+			}
+			out = append(out, l[i+1:i+1+j])
+			i += j + 2
+		default:
+			j := strings.IndexByte(l[i:], ' ')
+			if j < 0 {
+				j = len(l) - i
+			}
+			out = append(out, l[i:i+j])
+			i += j
+		}
+	}
+	return out
+}
+
+// authWord: an IMAP astring for s - an atom when it can be one (and quoting is not asked for), else a quoted string
+func authWord(s string, quote bool) string {
+	atom := s != ""
+	for _, c := range []byte(s) {
+		if !(c >= 'a' && c <= 'z' || c >= 'A' && c <= 'Z' || c >= '0' && c <= '9') {
+			atom = false
+		}
+	}
+	if atom && !quote {
+		return s
+	}
+	return `"` + s + `"`
+}
+
+func authLoginArg(user, pass string, quote bool) string {
+	return "LOGIN " + authWord(user, quote) + " " + authWord(pass, quote)
+}
+
+// authCreds: the pair a LOGIN step presents
+func authCreds(arg string) (user, pass string, ok bool) {
+	f := authSplitArgs(arg)
 	if len(f) != 3 {
+		return "", "", false
+	}
+	return f[1], f[2], true
+}
+
+// authAccepting: the users whose connector accepts the pair - the rule of connector.Dummy.Authorize (exact user name
+// of that connector and its password) over the users that are on the server
+func authAccepting(names, passes []string, removed []bool, arg string) []int {
+	var out []int
+	user, pass, ok := authCreds(arg)
+	if !ok {
 		return out
 	}
-	user, pass := authUnquote(f[1]), authUnquote(f[2])
-	for k := range q.Names {
-		// the rule of connector.Dummy.Authorize: exact user name of that connector and its password
-		if q.Names[k] == user && q.Passes[k] == pass {
+	for k := range names {
+		if (removed == nil || !removed[k]) && names[k] == user && passes[k] == pass {
 			out = append(out, k)
 		}
 	}
 	return out
 }
+
+func (q *authSeq) accepting(arg string) []int { return authAccepting(q.Names, q.Passes, nil, arg) }
 
 func runAuthSeq(q *authSeq, verbose bool) *authRun {
 	run := &authRun{seq: q}
@@ -535,6 +665,14 @@ func runAuthSeq(q *authSeq, verbose bool) *authRun {
 		if err != nil {
 			run.setupErr = err
 			return run
+		}
+		// a session opened with user k's own valid pair must show user k's data and nobody else's
+		for _, m := range reAuthMarker.FindAllStringSubmatch(s, -1) {
+			if x, _ := strconv.Atoi(m[1]); x != k {
+				run.before = append(run.before, s)
+				run.panics = append(run.panics, fmt.Sprintf("property identity login-bound-to-another-user: before any step, the session opened with the valid pair of user %d (%s) shows the data of user %d (marker %s); users logged in before it: 0..%d", k, authLoginArg(q.Names[k], q.Passes[k], true), x, m[0], k-1))
+				return run
+			}
 		}
 		// the fixture must be what the generator assumes: every stable mailbox, only this user's markers
 		for _, mb := range authStable(k) {
@@ -557,7 +695,44 @@ func runAuthSeq(q *authSeq, verbose bool) *authRun {
 	}()
 	t0 := time.Now()
 	ms := func() int64 { return int64(time.Since(t0) / time.Millisecond) }
+	// the credential table follows ADMIN steps
+	curPass := append([]string{}, q.Passes...)
+	removed := make([]bool, len(q.Names))
 	for i, st := range q.Steps {
+		if st.Conn < 0 {
+			o := authObs{Admin: true, Status: "admin", Sent: ms()}
+			f := authSplitArgs(st.Arg)
+			k := -1
+			if len(f) >= 1 {
+				k, _ = strconv.Atoi(f[0])
+			}
+			var err error
+			switch {
+			case k < 0 || k >= len(q.Names):
+				err = fmt.Errorf("no such user")
+			case st.Ty == "AdminRemove":
+				if err = a.removeUser(k); err == nil {
+					removed[k] = true
+				}
+			case st.Ty == "AdminAdd" && len(f) == 2:
+				if err = a.addUser(k, f[1]); err == nil {
+					removed[k], curPass[k] = false, f[1]
+				}
+			default:
+				err = fmt.Errorf("bad ADMIN step")
+			}
+			o.Recv = ms()
+			o.Raw = "done"
+			if err != nil {
+				o.Raw = "<" + err.Error() + ">"
+				run.panics = append(run.panics, fmt.Sprintf("admin step=%d %s failed: %v", i, st.String(), err))
+			}
+			run.obs = append(run.obs, o)
+			if verbose {
+				fmt.Fprintf(os.Stderr, "  %-60s => %s\n", st.String(), o.Raw)
+			}
+			continue
+		}
 		c := conns[st.Conn]
 		if c == nil {
 			c, err = a.dial(fmt.Sprintf("c%dx", st.Conn))
@@ -569,7 +744,7 @@ func runAuthSeq(q *authSeq, verbose bool) *authRun {
 		}
 		o := authObs{}
 		if st.Ty == "Login" {
-			o.Acc = q.accepting(st.Arg)
+			o.Acc = authAccepting(q.Names, curPass, removed, st.Arg)
 		}
 		o.Full = st.Ty == "List" && st.Arg == `LIST "" "*"`
 		o.Sent = ms()
@@ -583,9 +758,22 @@ func runAuthSeq(q *authSeq, verbose bool) *authRun {
 		if rep.Tagged == "" && rep.Err != nil {
 			o.Raw = "<" + rep.Err.Error() + ">"
 		}
+		if st.Ty == "Login" && o.Status == "ok" {
+			// identity probe: whose mailboxes does the session that was just accepted list?
+			pr := c.Cmd(`LIST "" "*"`)
+			o.Probed = true
+			o.Who = authSeen(pr.Untagged)
+			if pr.Status != "OK" {
+				o.Who = append(o.Who, 9) // not a user: the probe itself was refused
+			}
+		}
 		run.obs = append(run.obs, o)
 		if verbose {
-			fmt.Fprintf(os.Stderr, "  %-60s => %-4s seen=%v %dms %q\n", st.String(), o.Status, o.Seen, o.Recv-o.Sent, o.Raw)
+			fmt.Fprintf(os.Stderr, "  %-60s => %-4s seen=%v %dms %q", st.String(), o.Status, o.Seen, o.Recv-o.Sent, o.Raw)
+			if o.Probed {
+				fmt.Fprintf(os.Stderr, " accepted-by=%v session-lists-mailboxes-of=%v", o.Acc, o.Who)
+			}
+			fmt.Fprintln(os.Stderr)
 		}
 		if ne, ok := rep.Err.(net.Error); ok && ne.Timeout() && rep.Tagged == "" {
 			// the connection is open and the server does not answer: stop (every further command would wait as long)
@@ -601,6 +789,12 @@ func runAuthSeq(q *authSeq, verbose bool) *authRun {
 	}
 	conns = map[int]*Client{}
 	for k := range q.Names {
+		if removed[k] {
+			// a sequence that ends with a user removed: its view is taken after it has come back
+			if err := a.addUser(k, curPass[k]); err != nil {
+				run.panics = append(run.panics, fmt.Sprintf("admin: user %d cannot be added back at the end: %v", k, err))
+			}
+		}
 		s, err := a.snapshot(k)
 		if err != nil {
 			// the view of a user can no longer be taken: that is a change
@@ -636,11 +830,16 @@ func digits(xs []int) string {
 	return b.String()
 }
 
-// judgeLine: `judge-c18-wire <jail ms> <nusers> <events>`; event = conn,type,accepting,status,seen,sent,recv,flags
+// judgeLine: `judge-c18-wire <jail ms> <nusers> <events>`; event = conn,type,accepting,status,seen,sent,recv,flags,probe
+// (probe: `-` none, `p<users>` = the identity probe after an accepted LOGIN listed these users' mailboxes); `A,<what>` = ADMIN step
 func (r *authRun) judgeLine() string {
 	var ev []string
 	for i, st := range r.seq.Steps {
 		o := r.obs[i]
+		if o.Admin {
+			ev = append(ev, "A,"+st.Ty)
+			continue
+		}
 		fl := ""
 		if o.Blocked {
 			fl += "b"
@@ -654,7 +853,11 @@ func (r *authRun) judgeLine() string {
 		if fl == "" {
 			fl = "-"
 		}
-		ev = append(ev, fmt.Sprintf("%d,%s,%s,%s,%s,%d,%d,%s", st.Conn, st.Ty, digits(o.Acc), o.Status, digits(o.Seen), o.Sent, o.Recv, fl))
+		who := "-"
+		if o.Probed {
+			who = "p" + strings.TrimPrefix(digits(o.Who), "-")
+		}
+		ev = append(ev, fmt.Sprintf("%d,%s,%s,%s,%s,%d,%d,%s,%s", st.Conn, st.Ty, digits(o.Acc), o.Status, digits(o.Seen), o.Sent, o.Recv, fl, who))
 	}
 	ev = append(ev, "E,"+digits(r.changed))
 	return fmt.Sprintf("judge-c18-wire %d %d %s", r.seq.JailMS, len(r.seq.Names), strings.Join(ev, ";"))
@@ -726,11 +929,13 @@ func (g *authGen) newScratch(p *authConnPlan) string {
 	return fmt.Sprintf("%stmp%d", authMarker(p.owner), g.scratch)
 }
 
-func (g *authGen) creds(q *authSeq, p *authConnPlan, kind string) string {
+// credsFrom builds the pair of the given kind out of the valid pair of user `base` (other = another user of the
+// server).  Every kind but "right" is meant to be refused: should the construction hit a configured pair (colliding
+// names are generated on purpose), the password is extended until it does not.
+func (g *authGen) credsFrom(q *authSeq, base, other int, kind, label string) string {
 	r := g.r
-	other := (p.owner + 1 + r.Intn(len(q.Names)-1)) % len(q.Names)
-	user, pass := q.Names[p.owner], q.Passes[p.owner]
-	g.stat["gen.credentials."+kind+"."+p.label]++
+	user, pass := q.Names[base], q.Passes[base]
+	g.stat["gen.credentials."+kind+"."+label]++
 	switch kind {
 	case "right":
 	case "wrongpw":
@@ -743,17 +948,88 @@ func (g *authGen) creds(q *authSeq, p *authConnPlan, kind string) string {
 	case "otherpw":
 		pass = q.Passes[other]
 	case "case":
-		user = strings.ToUpper(user)
+		switch {
+		case strings.ToUpper(user) != user && r.Bool():
+			user = strings.ToUpper(user)
+		case strings.ToLower(user) != user:
+			user = strings.ToLower(user)
+		default:
+			user = strings.ToUpper(user[:1]) + user[1:]
+		}
 	case "othername":
-		user, pass = q.Names[other], q.Passes[p.owner]
+		user, pass = q.Names[other], q.Passes[base]
+	case "split":
+		// another split of the same bytes name||password; half of the time one whose first part is a configured user name
+		cat := user + pass
+		var named, any []int
+		for i := 1; i <= len(cat); i++ {
+			if i == len(user) {
+				continue
+			}
+			any = append(any, i)
+			for _, n := range q.Names {
+				if cat[:i] == n {
+					named = append(named, i)
+				}
+			}
+		}
+		i := Pick(r, any)
+		if len(named) > 0 && r.Bool() {
+			i = Pick(r, named)
+			g.stat["gen.credentials.split.first-part-is-a-user-name"]++
+		}
+		user, pass = cat[:i], cat[i:]
+	case "sep":
+		sep := Pick(r, []string{":", " ", ".", "|", "/", "=", "%", "*"})
+		switch r.Intn(4) {
+		case 0:
+			user = user + sep
+		case 1:
+			pass = sep + pass
+		case 2:
+			user, pass = user+sep+pass, ""
+		default:
+			user, pass = user+sep, sep+pass
+		}
+	case "emptypw":
+		pass = ""
+	case "trunc":
+		switch r.Intn(3) {
+		case 0:
+			user = user[:len(user)-1]
+		case 1:
+			pass = pass[:len(pass)-1]
+		default:
+			user = user[1:]
+		}
+		if user == "" {
+			user = "x"
+		}
+	case "swap":
+		user, pass = pass, user
 	}
-	if r.Chance(1, 4) {
-		return fmt.Sprintf(`LOGIN "%s" "%s"`, user, pass)
+	if kind != "right" {
+		for len(authAccepting(q.Names, q.Passes, nil, authLoginArg(user, pass, true))) > 0 {
+			pass += "x"
+			g.stat["gen.credentials.derived-pair-was-valid-extended"]++
+		}
 	}
-	return fmt.Sprintf("LOGIN %s %s", user, pass)
+	return authLoginArg(user, pass, r.Chance(1, 4))
 }
 
-var authWrongKinds = []string{"wrongpw", "unknown", "otherpw", "case", "othername"}
+func (g *authGen) creds(q *authSeq, p *authConnPlan, kind string) string {
+	other := (p.owner + 1 + g.r.Intn(len(q.Names)-1)) % len(q.Names)
+	base := p.owner
+	if kind == "split" && g.r.Bool() {
+		base, other = other, base // the bytes of somebody else's valid pair
+	}
+	return g.credsFrom(q, base, other, kind, p.label)
+}
+
+var authWrongKinds = []string{"wrongpw", "unknown", "otherpw", "case", "othername", "split", "split", "sep", "emptypw", "trunc", "swap"}
+
+// kinds derived from one valid pair (the probes below present them after that pair has been accepted)
+var authDerivedKinds = []string{"split", "split", "split", "sep", "emptypw", "trunc", "case", "otherpw", "othername", "wrongpw", "swap"}
 
 // command builds one valid wire command of the payload type.
 func (g *authGen) command(q *authSeq, p *authConnPlan, ty string) authStep {
@@ -968,16 +1244,143 @@ func (g *authGen) planConn(q *authSeq, p *authConnPlan, end string, term string,
 	terminal()
 }
 
+func (g *authGen) letters(n int) string {
+	b := make([]byte, n)
+	for i := range b {
+		b[i] = byte('a' + g.r.Intn(26))
+	}
+	return string(b)
+}
+
+// genUsers: user names and passwords of one server.  Besides unrelated names: a name that is a prefix of another,
+// names that differ in letter case only (with different or with the same password), and two valid pairs that become
+// the same bytes when name and password are joined with a separator (or with none).
+func (g *authGen) genUsers(q *authSeq, nu int) {
+	r := g.r
+	pw := func(k int) string { return fmt.Sprintf("pw%d%04x", k, r.Intn(1<<16)) }
+	scheme := Pick(r, []string{"plain", "prefix", "collide", "case"})
+	g.stat["gen.users."+scheme]++
+	names, passes := make([]string, nu), make([]string, nu)
+	switch scheme {
+	case "plain":
+		for k := 0; k < nu; k++ {
+			names[k], passes[k] = fmt.Sprintf("usr%d", k), pw(k)
+		}
+	case "prefix":
+		n := "u" + g.letters(2)
+		for k := 0; k < nu; k++ {
+			names[k], passes[k] = n, pw(k)
+			n += g.letters(r.Range(1, 2))
+		}
+	case "collide":
+		// (stem, ext+sep+p) and (stem+sep+ext, p)
+		sep := Pick(r, []string{"", "", "", ":", " ", ".", "|", "/"})
+		stem, ext, p := "u"+g.letters(2), g.letters(2), pw(0)
+		names[0], passes[0] = stem, ext+sep+p
+		names[1], passes[1] = stem+sep+ext, p
+		if nu > 2 {
+			names[2], passes[2] = "usr2", pw(2)
+			if r.Bool() {
+				names[2] = stem + sep + ext + sep + p // the whole joined string as a name
+			}
+		}
+		if sep != "" {
+			g.stat["gen.users.collide.with-separator"]++
+		}
+	case "case":
+		n := "u" + g.letters(3)
+		vs := []string{n, strings.ToUpper(n), strings.ToUpper(n[:2]) + n[2:]}
+		same := r.Bool()
+		for k := 0; k < nu; k++ {
+			names[k], passes[k] = vs[k], pw(k)
+			if same {
+				passes[k] = passes[0]
+			}
+		}
+		if same {
+			g.stat["gen.users.case.same-password"]++
+		}
+	}
+	// which index (marker, fixture) gets which pair must not matter
+	perm := make([]int, nu)
+	for i := range perm {
+		perm[i] = i
+	}
+	for i := nu - 1; i > 0; i-- {
+		j := r.Intn(i + 1)
+		perm[i], perm[j] = perm[j], perm[i]
+	}
+	for k := 0; k < nu; k++ {
+		q.Names = append(q.Names, names[perm[k]])
+		q.Passes = append(q.Passes, passes[perm[k]])
+	}
+}
+
+// remembered-login probe: user o logs in on one connection (and, sometimes, out again); then a *fresh* connection
+// presents pairs derived from o's valid pair - none of which any connector accepts - each followed by the full
+// listing (refused: not authenticated), and at the end sometimes the right pair of another user (whose session must
+// then list that user's mailboxes, not o's).  With `admin`, o is then removed from the server: its own right pair and
+// the derived ones must be refused; it comes back with the same or a new password: the old one must be refused once
+// it has changed, the new one accepted and bound to o's data.
+func (g *authGen) probePlan(q *authSeq, o int, others []int, conn int, admin bool) *authConnPlan {
+	r := g.r
+	nu := len(q.Names)
+	oth := (o + 1 + r.Intn(nu-1)) % nu
+	p := &authConnPlan{owner: o, victim: oth, conn: conn, label: "N0"}
+	add := func(c int, ty, arg string) { p.steps = append(p.steps, authStep{Conn: c, Ty: ty, Arg: arg}) }
+	list := func(c int) { add(c, "List", `LIST "" "*"`) }
+	derived := func(c, n int, label string) {
+		for i := 0; i < n; i++ {
+			add(c, "Login", g.credsFrom(q, o, oth, Pick(r, authDerivedKinds), label))
+			if r.Chance(2, 3) {
+				list(c)
+			}
+		}
+	}
+	add(conn, "Login", g.credsFrom(q, o, oth, "right", "probe"))
+	list(conn)
+	loggedOut := admin || r.Chance(1, 3)
+	if loggedOut {
+		add(conn, "Logout", "LOGOUT")
+	}
+	derived(conn+1, r.Range(1, 2), "probe-after-login")
+	if len(others) > 0 && r.Chance(1, 2) {
+		w := Pick(r, others)
+		add(conn+1, "Login", g.credsFrom(q, w, o, "right", "probe"))
+		list(conn + 1)
+		add(conn+1, "Logout", "LOGOUT")
+	}
+	if !admin {
+		return p
+	}
+	g.stat["gen.sequences.with-remove-and-add-user"]++
+	p.steps = append(p.steps, authStep{Conn: -1, Ty: "AdminRemove", Arg: strconv.Itoa(o)})
+	add(conn+2, "Login", g.credsFrom(q, o, oth, "right", "probe-removed")) // nobody's pair now
+	list(conn + 2)
+	derived(conn+2, r.Range(0, 1), "probe-removed")
+	newPass := q.Passes[o]
+	if r.Bool() {
+		newPass = fmt.Sprintf("np%d%04x", o, r.Intn(1<<16))
+		g.stat["gen.sequences.with-password-change"]++
+	}
+	p.steps = append(p.steps, authStep{Conn: -1, Ty: "AdminAdd", Arg: fmt.Sprintf("%d %s", o, authWord(newPass, false))})
+	if newPass != q.Passes[o] {
+		add(conn+2, "Login", g.credsFrom(q, o, oth, "right", "probe-old-password"))
+		list(conn + 2)
+	}
+	add(conn+3, "Login", authLoginArg(q.Names[o], newPass, r.Chance(1, 4)))
+	list(conn + 3)
+	add(conn+3, "Logout", "LOGOUT")
+	return p
+}
+
 // genAuthSeq: one sequence (users, passwords, interleaved steps of 2-4 connections).
 func (g *authGen) genAuthSeq(r *Rng, jailMS int) *authSeq {
 	g.r = r
 	g.scratch, g.appN = 0, 0
 	nu := r.Range(2, 3)
 	q := &authSeq{JailMS: jailMS}
-	for k := 0; k < nu; k++ {
-		q.Names = append(q.Names, fmt.Sprintf("usr%d", k))
-		q.Passes = append(q.Passes, fmt.Sprintf("pw%d%04x", k, r.Intn(1<<16)))
-	}
+	g.genUsers(q, nu)
 	// the victim never gets an authenticated session in this sequence: its view must stay identical
 	victim := r.Intn(nu)
 	unauthOnly := r.Chance(1, 5) // nobody logs in successfully: every view must stay identical
@@ -1056,6 +1459,40 @@ func (g *authGen) genAuthSeq(r *Rng, jailMS int) *authSeq {
 		}
 		plans = append(plans, p)
 	}
+	// remembered-login probe (one plan over several fresh connections: its own order is kept by the interleaving)
+	if !unauthOnly && r.Chance(1, 2) {
+		var cands []int
+		for k := 0; k < nu; k++ {
+			if k != victim {
+				cands = append(cands, k)
+			}
+		}
+		// remove / add only a user no other connection of this sequence belongs to (RemoveUser ends its sessions)
+		var alone []int
+		for _, k := range cands {
+			used := false
+			for _, pl := range plans {
+				if pl.owner == k {
+					used = true
+				}
+			}
+			if !used {
+				alone = append(alone, k)
+			}
+		}
+		o, admin := Pick(r, cands), false
+		if len(alone) > 0 && r.Chance(2, 3) {
+			o, admin = Pick(r, alone), true
+		}
+		var others []int
+		for _, k := range cands {
+			if k != o {
+				others = append(others, k)
+			}
+		}
+		g.stat["gen.sequences.with-remembered-login-probe"]++
+		plans = append(plans, g.probePlan(q, o, others, nc+1, admin))
+	}
 	// random interleaving that keeps every connection's own order
 	idx := make([]int, len(plans))
 	for {
@@ -1100,7 +1537,7 @@ func runAuthOracle(args []string) int {
 		var lines []string
 		var idx []int
 		for i, r := range runs {
-			if r.setupErr == nil && r.hang == "" {
+			if r.setupErr == nil && r.hang == "" && r.judgeIn != "" {
 				lines = append(lines, r.judgeIn)
 				idx = append(idx, i)
 			}
@@ -1139,7 +1576,11 @@ func runAuthOracle(args []string) int {
 		if r != nil {
 			for i, st := range r.seq.Steps {
 				if i < len(r.obs) {
-					text += fmt.Sprintf("#   %-3d %-64s => %-4s seen=%s %q\n", i, st.String(), r.obs[i].Status, digits(r.obs[i].Seen), r.obs[i].Raw)
+					text += fmt.Sprintf("#   %-3d %-64s => %-4s seen=%s %q", i, st.String(), r.obs[i].Status, digits(r.obs[i].Seen), r.obs[i].Raw)
+					if r.obs[i].Probed {
+						text += fmt.Sprintf(" pair-accepted-by-connector-of=%s session-lists-mailboxes-of=%s", digits(r.obs[i].Acc), digits(r.obs[i].Who))
+					}
+					text += "\n"
 				}
 			}
 			for _, k := range r.changed {
@@ -1216,14 +1657,35 @@ func runAuthOracle(args []string) int {
 	// offline generation, in order (the coverage deck is shared), then parallel execution
 	rng := NewRng(*seed)
 	g := &authGen{deck: map[string]int{}, stat: map[string]int{}}
-	seqs := make([]*authSeq, *n)
-	for i := range seqs {
-		seqs[i] = g.genAuthSeq(rng.Fork(), *jail)
+	// directed scenarios and past failures first: $VERIF_CORPUS/*.txt in the replay-file format
+	var seqs []*authSeq
+	var origin []string
+	if dir := os.Getenv("VERIF_CORPUS"); dir != "" {
+		files, _ := filepath.Glob(filepath.Join(dir, "*.txt"))
+		sort.Strings(files)
+		for _, f := range files {
+			b, err := os.ReadFile(f)
+			if err != nil || !strings.HasPrefix(string(b), "oracle c18auth") {
+				continue
+			}
+			q, err := parseAuthSeq(string(b))
+			if err != nil {
+				res.Violations = append(res.Violations, OracleViol{Desc: "C18: harness: corpus file " + f + ": " + err.Error()})
+				continue
+			}
+			res.Stats["corpus-files"]++
+			seqs = append(seqs, q)
+			origin = append(origin, "corpus "+filepath.Base(f))
+		}
+	}
+	for i := 0; i < *n; i++ {
+		seqs = append(seqs, g.genAuthSeq(rng.Fork(), *jail))
+		origin = append(origin, fmt.Sprintf("seed %d, sequence %d", *seed, i))
 	}
 	for _, k := range sortedKeys(g.stat) {
 		res.Stats[k] = g.stat[k]
 	}
-	runs := make([]*authRun, *n)
+	runs := make([]*authRun, len(seqs))
 	var wg sync.WaitGroup
 	next := make(chan int)
 	for w := 0; w < *workers; w++ {
@@ -1295,7 +1757,7 @@ func runAuthOracle(args []string) int {
 			}
 		}
 		qs := &authSeq{Names: q.Names, Passes: q.Passes, JailMS: q.JailMS, Steps: cur}
-		report(curRun, qs, verdict(curRun), fmt.Sprintf("minimised from %d steps (seed %d, sequence %d)", len(q.Steps), *seed, i))
+		report(curRun, qs, verdict(curRun), fmt.Sprintf("minimised from %d steps (%s)", len(q.Steps), origin[i]))
 	}
 	// coverage of the (state, command) matrix, by the judge's own labels
 	missing := 0
